@@ -433,12 +433,19 @@ class Context(MetadataContextMixin, object):
     def create_state(self):
         return State(metadata=self.metadata(), context=self)
 
+    def publishes_result_record(self):
+        """True if the metadata of this context are filed under the key the result itself is (going to be) cached under.
+        Under that key a record saying 'ready' is written by cache.store() together with the data, never as metadata only:
+        a metadata-only 'ready' record would make data written there by another evaluation look like this evaluation's finished result."""
+        return self.query is not None and self.raw_query == self.query.encode()
+
     def store_metadata(self, force=False):
         if self.raw_query is not None and self.enable_store_metadata:
             if force or self.can_report():
                 metadata = self.metadata()
                 cache = self.cache() if self.evaluation_cache is None else self.evaluation_cache
-                cache.store_metadata(self.metadata())
+                if not (self.status == Status.READY and self.publishes_result_record()):
+                    cache.store_metadata(self.metadata())
                 self.last_report_time = datetime.now()
                 if self.store_key is not None:
                     store = self.store() if self.store_to is None else self.store_to
@@ -809,7 +816,8 @@ class Context(MetadataContextMixin, object):
 
         state.set_volatile(is_volatile or state.is_volatile())
 
-        cache.store_metadata(state.metadata)
+        if state.is_error or not self.publishes_result_record():
+            cache.store_metadata(state.metadata)
         return state
 
     def store(self):
